@@ -36,7 +36,8 @@ static void v_clear(void *c, res_t *r) { V->clear(V); rfmt(r, "ok"); }
 static void v_reverse(void *c, res_t *r) { V->reverse(V); rfmt(r, "ok"); }
 static void v_resize1(void *c, res_t *r) { rfmt(r, "%d", V->resize(V, 1)); }
 static void v_lockedwalk(void *c, res_t *r) { V->lock(V); qvector_obj_t o; memset(&o, 0, sizeof o); rfmt(r, "w:"); int n = 0; while (V->getnext(V, &o, false) && n++ < 10) radd(r, "%d,", *(int *)o.data); V->unlock(V); }
-static cop_t V_OPS[] = {{"addlast", v_addlast}, {"addfirst", v_addfirst}, {"addat(1)", v_addat1}, {"removefirst", v_removefirst}, {"poplast", v_poplast}, {"getfirst(newmem)", v_getfirst}, {"setlast", v_setlast}, {"toarray", v_toarray}, {"clear", v_clear}, {"reverse", v_reverse}, {"resize(1)", v_resize1}, {"lock;walk;unlock", v_lockedwalk}};
+static void v_debug(void *c, res_t *r) { FILE *f = fopen("/dev/null", "w"); rfmt(r, "%d", V->debug(V, f)); fclose(f); }
+static cop_t V_OPS[] = {{"addlast", v_addlast}, {"addfirst", v_addfirst}, {"addat(1)", v_addat1}, {"removefirst", v_removefirst}, {"poplast", v_poplast}, {"getfirst(newmem)", v_getfirst}, {"setlast", v_setlast}, {"toarray", v_toarray}, {"clear", v_clear}, {"reverse", v_reverse}, {"resize(1)", v_resize1}, {"lock;walk;unlock", v_lockedwalk}, {"debug", v_debug}};
 
 /* ------------------------------------------------------------ qlist */
 static void *l_make(int init) { qlist_t *l = qlist(QLIST_THREADSAFE); if (init == 1) { l->addlast(l, "a", 2); l->addlast(l, "b", 2); } if (init == 2) { l->addlast(l, "a", 2); l->setsize(l, 2); } return l; }
@@ -45,11 +46,11 @@ static void l_destroy(void *c) { ((qlist_t *)c)->free(c); }
 static void *l_mutex(void *c) { return ((qlist_t *)c)->qmutex; }
 #define L ((qlist_t *)c)
 static void l_addlast(void *c, res_t *r) { rfmt(r, "%d", L->addlast(L, "x", 2)); }
-static void l_addfirst(void *c, res_t *r) { rfmt(r, "%d", L->addfirst(L, "y", 2)); }
+static void l_addfirst(void *c, res_t *r) { rfmt(r, "%d", L->addfirst(L, "yyy", 4)); }   /* another size than the other elements */
 static void l_addat1(void *c, res_t *r) { rfmt(r, "%d", L->addat(L, 1, "z", 2)); }
-static void l_popfirst(void *c, res_t *r) { char *p = L->popfirst(L, NULL); rfmt(r, "%s", p ? p : "NULL"); free(p); }
+static void l_popfirst(void *c, res_t *r) { size_t sz = 0; char *p = L->popfirst(L, &sz); rfmt(r, "%s/%zu", p ? p : "NULL", sz); free(p); }
 static void l_poplast(void *c, res_t *r) { char *p = L->poplast(L, NULL); rfmt(r, "%s", p ? p : "NULL"); free(p); }
-static void l_getfirst(void *c, res_t *r) { char *p = L->getfirst(L, NULL, true); rfmt(r, "%s", p ? p : "NULL"); free(p); }
+static void l_getfirst(void *c, res_t *r) { size_t sz = 0; char *p = L->getfirst(L, &sz, true); rfmt(r, "%s/%zu", p ? p : "NULL", sz); free(p); }
 static void l_removelast(void *c, res_t *r) { rfmt(r, "%d", L->removelast(L)); }
 static void l_toarray(void *c, res_t *r) { size_t n = 99; char *a = L->toarray(L, &n); rfmt(r, "%s n=%zu:", a ? "arr" : "NULL", n); for (size_t i = 0; a && i < n && i < 16; i++) radd(r, "%c", a[i] ? a[i] : '.'); free(a); }
 static void l_tostring(void *c, res_t *r) { char *s = L->tostring(L); rfmt(r, "%s", s ? s : "NULL"); free(s); }
@@ -57,7 +58,8 @@ static void l_clear(void *c, res_t *r) { L->clear(L); rfmt(r, "ok"); }
 static void l_reverse(void *c, res_t *r) { L->reverse(L); rfmt(r, "ok"); }
 static void l_setsize1(void *c, res_t *r) { rfmt(r, "%zu", L->setsize(L, 1)); }
 static void l_lockedwalk(void *c, res_t *r) { L->lock(L); qlist_obj_t o; memset(&o, 0, sizeof o); rfmt(r, "w:"); int n = 0; while (L->getnext(L, &o, false) && n++ < 10) radd(r, "%s,", (char *)o.data); L->unlock(L); }
-static cop_t L_OPS[] = {{"addlast", l_addlast}, {"addfirst", l_addfirst}, {"addat(1)", l_addat1}, {"popfirst", l_popfirst}, {"poplast", l_poplast}, {"getfirst(newmem)", l_getfirst}, {"removelast", l_removelast}, {"toarray", l_toarray}, {"tostring", l_tostring}, {"clear", l_clear}, {"reverse", l_reverse}, {"setsize(1)", l_setsize1}, {"lock;walk;unlock", l_lockedwalk}};
+static void l_debug(void *c, res_t *r) { FILE *f = fopen("/dev/null", "w"); rfmt(r, "%d", L->debug(L, f)); fclose(f); }
+static cop_t L_OPS[] = {{"addlast", l_addlast}, {"addfirst", l_addfirst}, {"addat(1)", l_addat1}, {"popfirst", l_popfirst}, {"poplast", l_poplast}, {"getfirst(newmem)", l_getfirst}, {"removelast", l_removelast}, {"toarray", l_toarray}, {"tostring", l_tostring}, {"clear", l_clear}, {"reverse", l_reverse}, {"setsize(1)", l_setsize1}, {"lock;walk;unlock", l_lockedwalk}, {"debug", l_debug}};
 
 /* ------------------------------------------------------------ qqueue / qstack (thin layers over qlist, no lock() of their own) */
 static int QS_STACK;
@@ -96,8 +98,10 @@ static void t_nearest(void *c, res_t *r) { qtreetbl_obj_t o = T_->find_nearest(T
 static void t_lockedwalk(void *c, res_t *r) { T_->lock(T_); qtreetbl_obj_t o; memset(&o, 0, sizeof o); rfmt(r, "w:"); int n = 0; while (T_->getnext(T_, &o, false) && n++ < 10) radd(r, "%s=%s,", (char *)o.name, (char *)o.data); T_->unlock(T_); }
 /* a second thread-safe table that only this thread uses: its lock does not order it against the shared table, so any
  * state the implementation shares between tables (file-scope variables) shows up as a data race */
+static void t_debug(void *c, res_t *r) { FILE *f = fopen("/dev/null", "w"); rfmt(r, "%d", T_->debug(T_, f)); fclose(f); }
+static void t_max(void *c, res_t *r) { char *p = T_->find_max(T_, NULL); rfmt(r, "%s", p ? p : "NULL"); free(p); }
 static void t_owntable(void *c, res_t *r) { (void)c; qtreetbl_t *t = qtreetbl(QTREETBL_THREADSAFE); t->putstr(t, "p", "1"); t->putstr(t, "q", "2"); rfmt(r, "%zu", t->size(t)); t->free(t); }
-static cop_t T_OPS[] = {{"put(a)", t_puta}, {"put(b)", t_putb}, {"put(c)", t_putc}, {"get(a,&size,newmem)", t_geta}, {"get(b,newmem)", t_getb}, {"remove(a)", t_rema}, {"remove(b)", t_remb}, {"clear", t_clear}, {"find_min", t_min}, {"find_nearest(b,newmem)", t_nearest}, {"lock;walk;unlock", t_lockedwalk}, {"own-table put(p),put(q)", t_owntable}};
+static cop_t T_OPS[] = {{"put(a)", t_puta}, {"put(b)", t_putb}, {"put(c)", t_putc}, {"get(a,&size,newmem)", t_geta}, {"get(b,newmem)", t_getb}, {"remove(a)", t_rema}, {"remove(b)", t_remb}, {"clear", t_clear}, {"find_min", t_min}, {"find_nearest(b,newmem)", t_nearest}, {"lock;walk;unlock", t_lockedwalk}, {"own-table put(p),put(q)", t_owntable}, {"debug", t_debug}, {"find_max", t_max}};
 
 /* ------------------------------------------------------------ qhashtbl (range 1: every key shares one chain) */
 static void *h_make(int init) { qhashtbl_t *t = qhashtbl(1, QHASHTBL_THREADSAFE); if (init) { t->putstr(t, "a", "1"); t->putstr(t, "b", "2"); } return t; }
@@ -114,7 +118,11 @@ static void h_rema(void *c, res_t *r) { rfmt(r, "%d", H->remove(H, "a")); }
 static void h_remb(void *c, res_t *r) { rfmt(r, "%d", H->remove(H, "b")); }
 static void h_clear(void *c, res_t *r) { H->clear(H); rfmt(r, "ok"); }
 static void h_lockedwalk(void *c, res_t *r) { H->lock(H); qhashtbl_obj_t o; memset(&o, 0, sizeof o); rfmt(r, "w:"); int n = 0; while (H->getnext(H, &o, false) && n++ < 10) radd(r, "%s=%s,", o.name, (char *)o.data); H->unlock(H); }
-static cop_t H_OPS[] = {{"put(a)", h_puta}, {"put(b)", h_putb}, {"putint(c)", h_putc}, {"get(a,&size,newmem)", h_geta}, {"getint(c)", h_getc}, {"remove(a)", h_rema}, {"remove(b)", h_remb}, {"clear", h_clear}, {"lock;walk;unlock", h_lockedwalk}};
+static void h_debug(void *c, res_t *r) { FILE *f = fopen("/dev/null", "w"); rfmt(r, "%d", H->debug(H, f)); fclose(f); }
+/* documented: a copying scan may run without the table lock (every getnext locks for itself); it is several calls, so its result
+ * takes no part in the linearizability check - what counts is that it ends and touches no freed element (ASan) and races with nothing (TSan) */
+static void h_unlockedscan(void *c, res_t *r) { qhashtbl_obj_t o; memset(&o, 0, sizeof o); int n = 0; while (H->getnext(H, &o, true) && n++ < 10) { free(o.name); free(o.data); } rfmt(r, "-"); }
+static cop_t H_OPS[] = {{"put(a)", h_puta}, {"put(b)", h_putb}, {"putint(c)", h_putc}, {"get(a,&size,newmem)", h_geta}, {"getint(c)", h_getc}, {"remove(a)", h_rema}, {"remove(b)", h_remb}, {"clear", h_clear}, {"lock;walk;unlock", h_lockedwalk}, {"debug", h_debug}, {"copying scan without lock", h_unlockedscan}};
 
 /* ------------------------------------------------------------ qlisttbl (plain and UNIQUE) */
 static int LT_UNIQUE;
@@ -132,7 +140,8 @@ static void lt_remb(void *c, res_t *r) { rfmt(r, "%zu", LT->remove(LT, "b")); }
 static void lt_clear(void *c, res_t *r) { LT->clear(LT); rfmt(r, "ok"); }
 static void lt_sort(void *c, res_t *r) { LT->sort(LT); rfmt(r, "ok"); }
 static void lt_lockedwalk(void *c, res_t *r) { LT->lock(LT); qlisttbl_obj_t o; memset(&o, 0, sizeof o); rfmt(r, "w:"); int n = 0; while (LT->getnext(LT, &o, NULL, false) && n++ < 12) radd(r, "%s=%s,", o.name, (char *)o.data); LT->unlock(LT); }
-static cop_t LT_OPS[] = {{"put(a)", lt_puta}, {"put(b)", lt_putb}, {"get(a,&size,newmem)", lt_geta}, {"getmulti(a,newmem)", lt_multia}, {"remove(a)", lt_rema}, {"remove(b)", lt_remb}, {"clear", lt_clear}, {"sort", lt_sort}, {"lock;walk;unlock", lt_lockedwalk}};
+static void lt_debug(void *c, res_t *r) { FILE *f = fopen("/dev/null", "w"); rfmt(r, "%d", LT->debug(LT, f)); fclose(f); }
+static cop_t LT_OPS[] = {{"put(a)", lt_puta}, {"put(b)", lt_putb}, {"get(a,&size,newmem)", lt_geta}, {"getmulti(a,newmem)", lt_multia}, {"remove(a)", lt_rema}, {"remove(b)", lt_remb}, {"clear", lt_clear}, {"sort", lt_sort}, {"lock;walk;unlock", lt_lockedwalk}, {"debug", lt_debug}};
 
 #define NOPS_OF(a) ((int)(sizeof a / sizeof a[0]))
 static cont_t CONT;
